@@ -1,5 +1,6 @@
 (* Proofs/TypstFinal.v -- C16: value-level theorems assembled for Rust's Debug printer. *)
 From Nv Require Export Proofs.TypstValueInj.
+From Coq Require Import Lia.
 
 Section Final.
   Variable esc : N -> bool.
@@ -28,6 +29,33 @@ Section Final.
     - apply debug_str_ws_free.
   Qed.
 End Final.
+
+(* the boolean the runner evaluates on the escape table dumped from std gives the hypothesis above *)
+Lemma is_ws_listed c : is_ws c = true -> In c ws_list.
+Proof.
+  unfold is_ws, ws_ranges. cbn [rng_mem]. intros H.
+  repeat (apply orb_true_iff in H as [H|H]; [apply andb_true_iff in H as [H1 H2]; apply N.leb_le in H1, H2|]);
+    try discriminate H; unfold ws_list; cbn [In].
+  - assert (c = 9 \/ c = 10 \/ c = 11 \/ c = 12 \/ c = 13) by lia. intuition.
+  - assert (c = 32) by lia. intuition.
+  - assert (c = 133) by lia. intuition.
+  - assert (c = 160) by lia. intuition.
+  - assert (c = 5760) by lia. intuition.
+  - assert (c = 8192 \/ c = 8193 \/ c = 8194 \/ c = 8195 \/ c = 8196 \/ c = 8197 \/ c = 8198 \/ c = 8199 \/ c = 8200 \/ c = 8201 \/ c = 8202) by lia.
+    intuition.
+  - assert (c = 8232 \/ c = 8233) by lia. intuition.
+  - assert (c = 8239) by lia. intuition.
+  - assert (c = 8287) by lia. intuition.
+  - assert (c = 12288) by lia. intuition.
+Qed.
+
+Lemma esc_covers_ws_spec esc : esc_covers_ws esc = true ->
+  forall c, is_ws c = true -> c = 32 \/ c = 9 \/ c = 10 \/ c = 13 \/ esc c = true.
+Proof.
+  unfold esc_covers_ws. rewrite forallb_forall. intros H c Hc. specialize (H c (is_ws_listed c Hc)).
+  apply orb_true_iff in H as [H|H]; [|auto 6].
+  apply memb_In in H. cbn [In] in H. intuition.
+Qed.
 
 (* every rendering of a whole value is whitespace-normal: it is the single-space join of tokens *)
 Lemma unwords_normal ts : Forall (fun t => is_token t = true) ts ->
